@@ -14,7 +14,8 @@
 
 size_t g_len0;         /* ghost: spelling bytes already collected (0, or 1 for the leading '.') */
 size_t g_j;            /* ghost: an arbitrary index into the token ("for all characters of the pp-number") */
-size_t g_line0n, g_sawn;
+bool g_sawn;
+const char *g_file0;
 
 /* length of the longest pp-number that starts at the scanner's character (oracle, loop-free) */
 #define NLEN ((size_t)lex_ppnum_len(g_L))
@@ -28,7 +29,7 @@ size_t g_line0n, g_sawn;
 	X(g_in_n <= G_IN_MAX && g_m <= GS_LMAX && gs_canonical()) \
 	X(AT(s, 0) && g_li == 0 && lex_isdigit(s->chr)) \
 	X(!s->usebuf && BUF_OK(&s->buf) && s->buf.len == g_len0 && g_len0 <= 1 && (g_len0 == 0 || s->buf.cap >= 1)) \
-	X(g_j < GS_LMAX) \
+	X(g_j < GS_LMAX && g_sawn == s->sawspace && g_file0 == s->loc.file) \
 	X(NUM_SELECT)
 
 #define POST_NUM(X) \
@@ -41,15 +42,12 @@ size_t g_line0n, g_sawn;
 	X(s->buf.len == g_len0 + NLEN) \
 	X(IMP(g_j < NLEN, s->buf.str[g_len0 + g_j] == (unsigned char)g_L[g_j])) \
 	X(BUF_OK(&s->buf)) \
+	/* frame: nothing else of the scanner changes */ \
+	X(s->file == ghost_file() && s->next == 0 && s->sawspace == g_sawn && s->loc.file == g_file0) \
 	CANARY(X, !(NUM_CANARY))
 
-static enum tokenkind number_contract(struct scanner *s)
-REQUIRES(PRE_NUM)
-__CPROVER_assigns(s->chr, s->usebuf, s->loc.line, s->loc.col, s->buf.str, s->buf.len, s->buf.cap,
-                  g_in_pos, g_li, g_unget_depth, g_unget_max, g_getc_calls)
-__CPROVER_assigns(s->buf.str != 0: __CPROVER_object_whole(s->buf.str))
-__CPROVER_frees(s->buf.str)
-ENSURES(POST_NUM);
+#undef RET
+#define RET HRET
 
 static void
 num_chars_from(u64 w0, u64 w1)
